@@ -152,7 +152,7 @@ class Reader:
                     )
                 self.meta["fileTimeSecs"] = ftsec
         else:
-            if self.nc * self.ns * self.dtype.itemsize != self.nbytes:
+            if self.nc * self.ns * self.dtype.itemsize != self.file_bin.stat().st_size:
                 ftsec = (
                     self.file_bin.stat().st_size
                     // (self.dtype.itemsize * self.nc)
